@@ -238,7 +238,7 @@ class Obligations:
 
 # property -> further modules under Pk/Props whose theorems are obligations of that property as well
 EXTRA_PROPS = {
-    "C06": ["MgrReach"], "C09": ["MgrReach"], "C10": ["MgrReach"], "C13": ["MgrReach"], "C16": ["MgrReach"],
+    "C06": ["MgrReach"], "C09": ["MgrReach", "C09Settles"], "C10": ["MgrReach"], "C13": ["MgrReach"], "C16": ["MgrReach"],
     "C15": ["C15Full"], "C01": ["C01Full"], "C07": ["C07Full"],
 }
 
